@@ -285,6 +285,272 @@ pub fn structure_walk(r: &InstructionGeneratorResult) -> Structure {
 }
 
 // ---------------------------------------------------------------------------
+// C15 static part 2: abstract interpretation of the stack depths over all paths
+// ---------------------------------------------------------------------------
+
+/// Depth vector of the abstract walk: value stack, register stack, var path stack, context states, by-ref stack,
+/// all relative to the entry of the root the walk started from.
+pub type Abs5 = [i32; 5];
+pub const ABS_NAMES: [&str; 5] = ["value_stack", "register_stack", "var_path_stack", "context_states", "by_ref_stack"];
+
+/// The stack effect of a straight-line instruction; None for instructions that transfer control.
+/// The table is calibrated against the real VM at run time (see `calibrate` in c15_step): every executed
+/// straight-line instruction that is followed by its successor must change the real depths by exactly this much.
+pub fn effect(ins: &Instruction) -> Option<Abs5> {
+    Some(match ins {
+        Instruction::Jump(_)
+        | Instruction::JumpIfFalse(_)
+        | Instruction::GoSub(..)
+        | Instruction::Return(..)
+        | Instruction::Resume
+        | Instruction::ResumeNext
+        | Instruction::ResumeLabel(..)
+        | Instruction::Halt
+        | Instruction::PushRet(_)
+        | Instruction::PopRet
+        | Instruction::Throw(_) => return None,
+        Instruction::PushAToValueStack => [1, 0, 0, 0, 0],
+        Instruction::PopValueStackIntoA => [-1, 0, 0, 0, 0],
+        Instruction::PushRegisters => [0, 1, 0, 0, 0],
+        Instruction::PopRegisters => [0, -1, 0, 0, 0],
+        Instruction::VarPathName(_) => [0, 0, 1, 0, 0],
+        Instruction::CopyAToVarPath | Instruction::PopVarPath | Instruction::PushUnnamedByRef => [0, 0, -1, 0, 0],
+        Instruction::BeginCollectArguments => [0, 0, 0, 1, 0],
+        Instruction::PopStack | Instruction::AllocateArrayIntoA(_) => [0, 0, 0, -1, 0],
+        Instruction::EnqueueToReturnStack(_) => [0, 0, 0, 0, 1],
+        Instruction::DequeueFromReturnStack => [0, 0, 0, 0, -1],
+        _ => [0, 0, 0, 0, 0],
+    })
+}
+
+#[derive(Default)]
+pub struct AbsWalk {
+    pub violations: Vec<String>,
+    pub roots: usize,
+    pub reached: usize,
+    pub joins: usize,
+    pub edges: usize,
+    pub carried_checked: usize,
+}
+
+fn fmt_diff(a: &Abs5, b: &Abs5) -> String {
+    (0..5)
+        .filter(|k| a[*k] != b[*k])
+        .map(|k| format!("{} {} vs {}", ABS_NAMES[k], a[k], b[k]))
+        .collect::<Vec<_>>()
+        .join(", ")
+}
+
+/// Forward data-flow over the instruction list. Every procedure entry (and the start of the main module) is a root
+/// with all depths 0; every GOSUB target and every ON ERROR GOTO target is a root of its own (such code runs at the
+/// depth of whatever was interrupted, so only its relative behaviour is judged). Within one root every address must
+/// be reached with one depth vector on all paths (a back edge that arrives deeper is a stack that grows with the
+/// iteration count, a join that disagrees is a path that pushes without popping); a procedure root must never go
+/// below its entry depths and must be back at them at every PopRet / at the final Halt. The FOR / SELECT CASE
+/// depths carried by GoSub, Return label and ResumeLabel must equal the depths the walk found at those places.
+/// Error edges (a failing instruction continuing at a handler or at the next statement) are not followed.
+pub fn abstract_walk(r: &InstructionGeneratorResult, st: &Structure) -> AbsWalk {
+    let ins = &r.instructions;
+    let n = ins.len();
+    let mut out = AbsWalk::default();
+    if n == 0 || !st.violations.is_empty() {
+        // targets may be unresolved or outside the list: the structural walk already reports that
+        return out;
+    }
+    let pos = |i: usize| format!("addr {} ({}:{})", i, ins[i].pos.row() as i64, ins[i].pos.col() as i64);
+    let target = |t: &AddressOrLabel| -> Option<usize> {
+        match t {
+            AddressOrLabel::Resolved(a) if *a < n => Some(*a),
+            _ => None,
+        }
+    };
+    // roots
+    let mut proc_roots: Vec<usize> = vec![0];
+    for (i, ip) in ins.iter().enumerate() {
+        if let Instruction::Label(l) = &ip.element {
+            if is_proc_label(&l.to_string()) {
+                proc_roots.push(i);
+            }
+        }
+    }
+    let mut other_roots: Vec<usize> = vec![];
+    for ip in ins.iter() {
+        match &ip.element {
+            Instruction::GoSub(t, ..) | Instruction::OnErrorGoTo(t) => {
+                if let Some(a) = target(t) {
+                    if !other_roots.contains(&a) {
+                        other_roots.push(a);
+                    }
+                }
+            }
+            _ => {}
+        }
+    }
+    // the walk of the procedure roots shares one map (procedures do not overlap)
+    let mut proc_state: Vec<Option<Abs5>> = vec![None; n];
+    let mut push_v = |v: &mut Vec<String>, s: String| {
+        if v.len() < 12 && !v.contains(&s) {
+            v.push(s);
+        }
+    };
+    let mut run_root = |root: usize, is_proc: bool, state: &mut Vec<Option<Abs5>>, out: &mut AbsWalk| {
+        let mut work: Vec<(usize, Abs5, usize)> = vec![(root, [0; 5], root)];
+        while let Some((i, s, from)) = work.pop() {
+            if i >= n {
+                push_v(&mut out.violations, format!("abstract: control runs off the end of the instruction list after {}", pos(from)));
+                continue;
+            }
+            out.edges += 1;
+            if is_proc && st.proc_of[i] != st.proc_of[root] {
+                push_v(
+                    &mut out.violations,
+                    format!("abstract: control flows from {} into another procedure at {}", pos(from), pos(i)),
+                );
+                continue;
+            }
+            match &state[i] {
+                Some(old) => {
+                    out.joins += 1;
+                    if *old != s {
+                        push_v(
+                            &mut out.violations,
+                            format!(
+                                "abstract: two paths reach {} with different stack depths ({}), the second one from {}",
+                                pos(i),
+                                fmt_diff(old, &s),
+                                pos(from)
+                            ),
+                        );
+                    }
+                    continue;
+                }
+                None => {
+                    state[i] = Some(s);
+                    out.reached += 1;
+                }
+            }
+            let e = &ins[i].element;
+            if let Some(d) = effect(e) {
+                let mut t = s;
+                for k in 0..5 {
+                    t[k] += d[k];
+                }
+                if is_proc && t.iter().any(|x| *x < 0) {
+                    push_v(
+                        &mut out.violations,
+                        format!(
+                            "abstract: {} at {} pops below the depths its procedure started with ({:?})",
+                            opcode_name(e),
+                            pos(i),
+                            t
+                        ),
+                    );
+                    continue;
+                }
+                work.push((i + 1, t, i));
+                continue;
+            }
+            match e {
+                Instruction::Jump(t) => {
+                    if let Some(a) = target(t) {
+                        work.push((a, s, i));
+                    }
+                }
+                Instruction::JumpIfFalse(t) => {
+                    if let Some(a) = target(t) {
+                        work.push((a, s, i));
+                    }
+                    work.push((i + 1, s, i));
+                }
+                Instruction::GoSub(..) => {
+                    // the routine is a root of its own; it comes back to the next instruction at these depths
+                    work.push((i + 1, s, i));
+                }
+                Instruction::PushRet(a) => {
+                    // the callee is a root of its own; the call returns to `a` at these depths
+                    work.push((*a, s, i));
+                }
+                Instruction::Return(Some(t), for_depth, select_depth) => {
+                    if is_proc {
+                        if let Some(a) = target(t) {
+                            work.push((a, [*select_depth as i32, *for_depth as i32, 0, 0, 0], i));
+                        }
+                    }
+                }
+                Instruction::ResumeLabel(t, for_depth, select_depth) => {
+                    if is_proc && st.proc_of[i] == 0 {
+                        if let Some(a) = target(t) {
+                            work.push((a, [*select_depth as i32, *for_depth as i32, 0, 0, 0], i));
+                        }
+                    }
+                }
+                Instruction::PopRet => {
+                    if is_proc && s != [0; 5] {
+                        push_v(
+                            &mut out.violations,
+                            format!(
+                                "abstract: a path reaches the end of the procedure at {} with depths that differ from those at its entry ({})",
+                                pos(i),
+                                fmt_diff(&s, &[0; 5])
+                            ),
+                        );
+                    }
+                }
+                Instruction::Halt => {
+                    // END may be written inside any block; only the Halt that closes the main module is judged
+                    if is_proc && ins[i].pos.row() == u32::MAX && s != [0; 5] {
+                        push_v(
+                            &mut out.violations,
+                            format!("abstract: a path reaches the end of the main module with depths {:?}", s),
+                        );
+                    }
+                }
+                _ => {}
+            }
+        }
+    };
+    for root in proc_roots.iter() {
+        out.roots += 1;
+        run_root(*root, true, &mut proc_state, &mut out);
+    }
+    for root in other_roots.iter() {
+        out.roots += 1;
+        let mut state: Vec<Option<Abs5>> = vec![None; n];
+        run_root(*root, false, &mut state, &mut out);
+    }
+    // the depths carried by the instructions must be the depths found at those places
+    for (i, ip) in ins.iter().enumerate() {
+        let (what, at, fd, sd) = match &ip.element {
+            Instruction::GoSub(_, fd, sd) => ("GoSub", Some(i), *fd, *sd),
+            Instruction::Return(Some(t), fd, sd) => ("Return label", target(t), *fd, *sd),
+            Instruction::ResumeLabel(t, fd, sd) => ("ResumeLabel", target(t), *fd, *sd),
+            _ => continue,
+        };
+        if let Some(a) = at {
+            if let Some(s) = &proc_state[a] {
+                out.carried_checked += 1;
+                if s[0] != sd as i32 || s[1] != fd as i32 {
+                    push_v(
+                        &mut out.violations,
+                        format!(
+                            "abstract: {} at {} carries FOR depth {} and SELECT depth {}, but the paths of the procedure reach {} with register depth {} and value depth {}",
+                            what,
+                            pos(i),
+                            fd,
+                            sd,
+                            pos(a),
+                            s[1],
+                            s[0]
+                        ),
+                    );
+                }
+            }
+        }
+    }
+    out
+}
+
+// ---------------------------------------------------------------------------
 // dynamic monitor
 // ---------------------------------------------------------------------------
 
@@ -324,6 +590,9 @@ pub struct MonState {
     pub prev_addr: Option<usize>,
     pub handler_entries: u64,
     pub ended_at_final_halt: bool,
+    /// calibration of the abstract walk's effect table against the real VM
+    pub calib_prev: Option<(usize, Option<Abs5>, Abs5, Option<i32>)>,
+    pub calib_checked: u64,
     // C06
     pub c06: Vec<String>,
     pub c06_slots_checked: u64,
@@ -412,6 +681,35 @@ impl MonState {
         if let Instruction::JumpIfFalse(AddressOrLabel::Resolved(t)) = ins {
             self.prev_jif = Some((address, *t));
         }
+        // calibration of the static effect table: a straight-line instruction that was followed by its successor
+        // (not a statement start, where a trapped error may have landed) changed the real depths by the table's amount
+        let now5: Abs5 = [
+            d.value_stack as i32,
+            d.register_stack as i32,
+            d.var_path_stack as i32,
+            d.states as i32,
+            d.by_ref_stack as i32,
+        ];
+        if let Some((paddr, Some(eff), before, perr)) = self.calib_prev.take() {
+            if address == paddr + 1 && !self.statement_starts.contains(&address) && perr == es.last_error_code {
+                self.calib_checked += 1;
+                let mut want = before;
+                for k in 0..5 {
+                    want[k] += eff[k];
+                }
+                if want != now5 {
+                    let s = format!(
+                        "effect table: the instruction at {} changed the stack depths {:?} -> {:?}, the abstract walk assumes {:?}",
+                        self.pos_str(paddr),
+                        before,
+                        now5,
+                        eff
+                    );
+                    Self::push_v(&mut self.c15, s);
+                }
+            }
+        }
+        self.calib_prev = Some((address, effect(ins), now5, es.last_error_code));
         let v = vec6(d);
         // the first instruction after a procedure returned: the loop frames and SELECT CASE values of the call are gone
         // (the VM drops them with the call, e.g. after EXIT SUB from a GOSUB routine entered inside a FOR loop)
